@@ -300,6 +300,13 @@ pub fn check_stream_case(case: &StreamCase, refs: &mut Refs, mon: &mut Mon) {
         ReadAdapter::Chain { .. } => "chain",
     };
     mon.event(|| format!("stream {} -> {} fired={:?}", ctx, show_seq(&run.items), fired));
+    // the Serde front end over the same script (see serdecl.rs)
+    #[cfg(feature = "serde-client")]
+    if case.api == Api::Value {
+        if let Some(reference) = run.items.first() {
+            crate::serdecl::check_serde_client(case, reference, mon);
+        }
+    }
 
     if case.plan.faults.is_empty() || fired.is_empty() {
         // O6.1 benign equivalence / O6.3 an unfired fault is invisible
